@@ -61,12 +61,38 @@ COMPARE = [
 ]
 
 
+# behaviours close to the accepting one: which of them match the golden run
+# depends on the comparison options (accept.accept_one decides, as documented)
+NEARS = [
+    {'exit': 1, 'out': runs.ACCEPT['out'], 'err': 'other failure\n'},
+    {'exit': 1, 'out': 'bug elsewhere\n', 'err': runs.ACCEPT['err']},
+    {'exit': 1, 'out': 'bug elsewhere\n', 'err': 'other assertion\n'},
+    {'exit': 1, 'out': 'sat\n', 'err': runs.ACCEPT['err']},
+    {'exit': 2, 'out': runs.ACCEPT['out'], 'err': runs.ACCEPT['err']},
+    {'exit': 1, 'out': runs.ACCEPT['out'], 'err': ''},
+]
+
+
 def make_configs(r, n):
     cfgs = corpus.configs(r, n)
     for i, (text, spec, opts, meta) in enumerate(cfgs):
         cmpo, cmpd = COMPARE[i % len(COMPARE)]
         opts += cmpo
         meta['compare'] = dict(cmpd)
+        if i % 2 == 1:
+            beh = NEARS[r.randrange(len(NEARS))]
+            io = cmpd.get('ignore_output')
+            g = runs.ACCEPT
+            ok = accept.accept_one(
+                (g['exit'], g['out'], g['err']),
+                (beh['exit'], beh['out'], beh['err']),
+                io or cmpd.get('ignore_out'), io or cmpd.get('ignore_err'),
+                cmpd.get('match_out'), cmpd.get('match_err'))
+            mk = spec.get('markers') or []
+            spec['near'] = {
+                'pred': ({'mode': 'contains', 'markers': mk[:1]}
+                         if mk and r.random() < 0.6 else {'mode': 'always'}),
+                'beh': beh, 'acceptable': ok}
         if i % 7 == 3:
             # cross check: a second scripted command with its own predicate
             cc = corpus.gen_pred(r, text, 'contains')
